@@ -232,9 +232,22 @@ FaceSide(f, p) ==
         w == sg * p[ax]
     IN  IF w > Abs(p[o1]) /\ w > Abs(p[o2]) THEN 1
         ELSE IF w > 0 /\ w >= Abs(p[o1]) /\ w >= Abs(p[o2]) THEN 0 ELSE -1
-\* 1: the edge certainly touches the face (distance exactly zero); -1: certainly positive; 0: no prediction
+\* the boundary of the face cell: four edges between cube corners, which are lattice points
+FaceCorner(f, k) ==
+    LET ax == (f % 3) + 1
+        sg == IF f < 3 THEN 1 ELSE -1
+        o1 == (ax % 3) + 1
+        s1 == IF k \in {1, 4} THEN -1 ELSE 1
+        s2 == IF k \in {1, 2} THEN -1 ELSE 1
+    IN  [i \in 1..3 |-> IF i = ax THEN sg ELSE IF i = o1 THEN s1 ELSE s2]
+FaceCrosses(f, e) ==
+    e[1] # e[2] /\ \E k \in 1..4 :
+        LET c == FaceCorner(f, k) d == FaceCorner(f, (k % 4) + 1)
+        IN  CrossingSign(e[1], e[2], c, d) = "CROSS" /\ CrossingRobust(e[1], e[2], c, d)
+\* 1: the edge certainly meets the face (an endpoint strictly inside, or a proper crossing of
+\* its boundary): distance exactly zero; -1: certainly positive; 0: no prediction
 FaceZero(f, e) ==
-    IF FaceSide(f, e[1]) = 1 \/ FaceSide(f, e[2]) = 1 THEN 1
+    IF FaceSide(f, e[1]) = 1 \/ FaceSide(f, e[2]) = 1 \/ FaceCrosses(f, e) THEN 1
     ELSE IF e[1] = e[2] /\ FaceSide(f, e[1]) = -1 THEN -1 ELSE 0
 
 \* D: tuple of the descriptors of all edges, L: descriptor of the limit (both values)
